@@ -57,7 +57,7 @@ macro_rules! rescale_instance {
         //@ functions: arrow_cast::cast::decimal::{rescale_decimal, make_upscaler, make_downscaler, apply_rescaler}, Decimal32Type::is_valid_decimal_precision, validate_decimal_precision_and_scale
         //@ bound: Decimal32 -> Decimal32, concrete (input scale, scale delta) per instance, symbolic precisions 1..=9 on both sides, every i32 value valid for the input precision; reference = exact i64 arithmetic with round-half-away-from-zero
         //@ assume: the input value has at most `input_precision` digits (it is a valid decimal of its declared type)
-        //@ stub: alloc::fmt::format -> empty String
+        //@ stub: alloc::fmt::format -> empty String; Result::ok -> same value, the discarded ArrowError is leaked rather than dropped
         #[kani::proof]
         #[kani::unwind(4)]
         #[kani::stub(alloc::fmt::format, stub_format)]
@@ -152,11 +152,23 @@ fn decimal_cast_one_row<const IS: i8, const D: i8>() {
         Ok(out) => assert!(fits && out.is_valid(0) && out.value(0) as i64 == e, "strict cast: Ok only when the value fits, with the exact value"),
         Err(_) => assert!(!fits, "strict cast errs exactly where the safe cast yields null"),
     }
-    kani::cover!(!fits && op == 9, "overflow at the maximum precision of the type");
+    kani::cover!(!fits && (op == 9 || D < 0), "overflow (at the maximum precision of the type when scaling up)");
     kani::cover!(fits && v < -1);
     std::mem::forget(safe);
     std::mem::forget(strict);
     std::mem::forget(array);
+}
+
+// Result::ok() as in core, except that the discarded error is leaked instead of dropped: the drop glue of
+// ArrowError (Box<dyn Error>, io::Error) on a merged path is what exhausted the memory cap.  Same return value.
+fn ok_without_drop<T, E>(r: Result<T, E>) -> Option<T> {
+    match r {
+        Ok(x) => Some(x),
+        Err(e) => {
+            std::mem::forget(e);
+            None
+        }
+    }
 }
 
 macro_rules! decimal_cast_instance {
@@ -166,10 +178,11 @@ macro_rules! decimal_cast_instance {
         //@ functions: arrow_cast::cast::decimal::{convert_to_bigger_or_equal_scale_decimal, convert_to_smaller_scale_decimal, apply_decimal_cast, make_upscaler, make_downscaler}, PrimitiveArray::{unary, unary_opt, try_unary}
         //@ bound: ONE-row Decimal32 array, concrete (input scale, scale delta) per instance, symbolic precisions 1..=9 (the type's maximum included) on both sides, every value valid for the input precision; safe mode: null iff the exact rescaled value does not fit, else that value; strict mode errs exactly where safe mode yields null
         //@ assume: the input value has at most `input_precision` digits
-        //@ stub: alloc::fmt::format -> empty String
+        //@ stub: alloc::fmt::format -> empty String; Result::ok -> same value, the discarded ArrowError is leaked rather than dropped
         #[kani::proof]
         #[kani::unwind(4)]
         #[kani::stub(alloc::fmt::format, stub_format)]
+        #[kani::stub(core::result::Result::ok, ok_without_drop)]
         fn $name() {
             decimal_cast_one_row::<{ $is }, { $d }>();
         }
